@@ -8,6 +8,8 @@ namespace Driver.C18
  * `["history", lib, file, [k₁, k₂, …]]` — invocation `i` (run tag `i`, 1-based) of the upgrade on the
    file left by invocation `i-1`, interrupted before its `kᵢ`-th step (`null` = not interrupted);
    answer: per invocation `{"steps": …, "file": …, "err": …}`
+ * `["stale", lib, file, k]` — two task lists collected up front; the first processed (interrupted before
+   step `k` / completely for `null`), then the stale second one completely
  * `["collect", lib, file]`, `["openrw", lib, file]`, `["view", file]`, `["is_uuid", text]`
 -/
 
@@ -167,6 +169,17 @@ def history (lib : List Nat) (f : File) (ks : List Json) : Json :=
         ("file", fileJ r.1), ("err", errJ r.2)]))
   .arr (go 1 f ks #[])
 
+/-- two task lists collected up front (as `main` does for a file named twice): the first is processed
+(interrupted before step `k`, or completely), then the second, stale one completely -/
+def stale (lib : List Nat) (f : File) (k : Json) : Json :=
+  let steps := collect lib f
+  let r1 := match k.getNat? with
+    | .ok k => runSteps lib 1 f (steps.take k)
+    | _ => runSteps lib 1 f steps
+  let r2 := runSteps lib 2 r1.1 steps
+  .arr #[Json.mkObj [("file", fileJ r1.1), ("err", errJ r1.2)],
+         Json.mkObj [("file", fileJ r2.1), ("err", errJ r2.2)]]
+
 def viewJ (f : File) : Json :=
   let ratsJ (o : Option (List Rat)) : Json := match o with
     | none => .null | some l => .arr (l.map fun r => Json.str (ratStr r)).toArray
@@ -192,6 +205,10 @@ def handle (j : Json) : Json :=
   | [Json.str "history", lib, file, ks] =>
     match parseNats lib, parseFile file with
     | some lib, some f => ok (history lib f (jArr ks).toList)
+    | _, _ => bad "C18: malformed file"
+  | [Json.str "stale", lib, file, k] =>
+    match parseNats lib, parseFile file with
+    | some lib, some f => ok (stale lib f k)
     | _, _ => bad "C18: malformed file"
   | [Json.str "collect", lib, file] =>
     match parseNats lib, parseFile file with
